@@ -252,6 +252,27 @@ def invoke(program, cls_name, result_name, args):
 
 STANDIN_NAMES = ["In0", "in0", "IN0", "In3", "in3"]
 _calls = {"n": 0}
+_shared_lists = {}       # one list object per sequence of field names, handed to every program of the process that lists them
+
+
+def run_direct(cls_name, inputs, params, fuzzy_inputs=False, libs=CSV_LIBS):
+    """The way the repository's own tests drive a command: an argument-less instance and execute(**kwargs) with stand-in
+    producers and the caller's own parameter objects (nothing is cleaned or copied on the way)."""
+    program = new_program(libs)
+    cls = program.find_command_class(cls_name)
+    prods = [standin(program, STANDIN_NAMES[i] if i < len(STANDIN_NAMES) else "In%d" % i, a, fuzzy=fuzzy_inputs) for i, a in enumerate(inputs)]
+    kwargs = dict(params)
+    shape = INPUT_STYLE.get(cls_name, "list")
+    if shape == "one":
+        kwargs["InFieldName"] = prods[0]
+    elif shape == "ab":
+        kwargs["A"], kwargs["B"] = prods[0], prods[1]
+    else:
+        kwargs["InFieldNames"] = prods
+    try:
+        return Outcome(value=cls("Res").execute(**kwargs)), program
+    except Exception as e:
+        return Outcome(exc=e), program
 
 
 def run_cmd(cls_name, inputs, params, fuzzy_inputs=False, libs=CSV_LIBS, program=None, list_param=None, refs=None):
@@ -274,7 +295,7 @@ def run_cmd(cls_name, inputs, params, fuzzy_inputs=False, libs=CSV_LIBS, program
     elif shape == "ab":
         args["A"], args["B"] = names[0], names[1]
     else:
-        args[list_param or "InFieldNames"] = list(names)
+        args[list_param or "InFieldNames"] = _shared_lists.setdefault(tuple(names), list(names))
     if _calls["n"] % 2:
         args = dict(reversed(list(args.items())))      # the order in which arguments are written does not matter
     out = invoke(program, cls_name, "Res", args)
